@@ -81,7 +81,8 @@ ArEntries(n) ==
     << <<"Sum", <<>>>>, <<"Multiply", <<>>>>, <<"Minimum", <<>>>>, <<"Maximum", <<>>>>, <<"Mean", <<>>>> >>
     \o [i \in 1..Len(WeightVecs(n)) |-> <<"WeightedSum", W(WeightVecs(n)[i])>>]
     \o [i \in 1..Len(WeightVecs(n)) |-> <<"WeightedMean", W(WeightVecs(n)[i])>>]
-    \o << <<"WeightedSum", W(Ones(n + 1))>>, <<"WeightedMean", W(IF n > 1 THEN Ones(n - 1) ELSE Ones(2))>> >>
+    \o << <<"WeightedSum", W(Ones(n + 1))>>, <<"WeightedMean", W(IF n > 1 THEN Ones(n - 1) ELSE Ones(2))>>,
+          <<"WeightedSum", W(<<>>)>>, <<"WeightedMean", W(<<>>)>> >>             \* (no weights at all is a count mismatch too)
     \o (IF n = 2 THEN << <<"AMinusB", <<>>>>, <<"ADividedByB", <<>>>> >> ELSE <<>>)
     \o (IF n = 1 THEN << <<"Copy", <<>>>> >> ELSE <<>>)
 
@@ -134,6 +135,9 @@ CvaEntries(a) ==
     [i \in 1..3 |-> <<"CvtToFuzzy", Dirs[i]>>]
     \o [i \in 1..3 |-> <<"CvtToFuzzy", << <<"TrueThreshold", R(3)>> >> \o Dirs[i]>>]
     \o [i \in 1..3 |-> <<"CvtToFuzzy", << <<"FalseThreshold", Q(1, 2)>> >> \o Dirs[i]>>]
+    \* (one explicit threshold that may coincide with the data extreme the other one defaults to: equal thresholds are an error, not a division by zero)
+    \o [i \in 1..3 |-> <<"CvtToFuzzy", << <<"TrueThreshold", R(-1)>> >> \o Dirs[i]>>]
+    \o [i \in 1..3 |-> <<"CvtToFuzzy", << <<"FalseThreshold", R(4)>> >> \o Dirs[i]>>]
     \o << <<"Normalize", <<>>>>, <<"Normalize", << <<"StartVal", R(-1)>>, <<"EndVal", R(1)>> >> >>,
           <<"Normalize", << <<"StartVal", R(2)>> , <<"EndVal", R(10)>> >> >>, <<"Normalize", << <<"EndVal", R(5)>> >> >> >>
     \o (IF HasStd(a)
